@@ -1,12 +1,12 @@
 -------------------------------- MODULE Gen --------------------------------
 (* Emits the state graph of RsStore edge by edge: identity of a state = two   *)
 (* 32-bit TLC fingerprints of its variables, label = lbl of the target state. *)
-EXTENDS RsStore, TLCExt, Json
+EXTENDS Props, TLCExt, Json
 
 Id(v) == <<TLCFP(v), TLCFP(<<"salt", v>>)>>
 CurVars == <<prog, chan, lk, state, reducers, mws, subs, pool, tasks, pc, loc, m, h, lbl>>
 NxtVars == <<prog', chan', lk', state', reducers', mws', subs', pool', tasks', pc', loc', m', h', lbl'>>
 
-EmitEdge == PrintT(<<"E", Id(CurVars), Id(NxtVars), ToJson(lbl')>>)
+EmitEdge == PrintT(<<"E", Id(CurVars), Id(NxtVars), IF AllDone' THEN 1 ELSE 0, ToJson(lbl')>>)
 EmitInit == (lbl.ev = "init") => PrintT(<<"I", Id(CurVars), ToJson(prog)>>)
 =============================================================================
